@@ -1,4 +1,283 @@
-import NutilsVerif.Model.C05
+import NutilsVerif.Proofs.C05Check
+import NutilsVerif.Proofs.C05Compress
+import NutilsVerif.Proofs.C05Merge
+import NutilsVerif.Proofs.C05Csr
+import NutilsVerif.Proofs.C05Chunks
+import NutilsVerif.Core.Poly
+/-!
+# C05 — sparse extraction denotes exactly the dense array: property theorems
+
+*Statement.*  The sparse COO and CSR data extracted from any array expression denote exactly the dense array the
+expression evaluates to: every index lies inside the announced shape, index tuples are unique and
+lexicographically ordered, CSR row pointers are monotone and column indices strictly increase within a row, and
+scattering the listed values into zeros reproduces the dense result.
+
+*How the theorems carry it.*
+1. `checkCOO_sound` / `checkCSR_sound` (+ `…_complete`): the executable checkers the driver applies to the
+   evaluated *real* sparse trees accept **exactly** the data that satisfy the property (`CooDenotes`, `CsrDenotes`,
+   defined in `Proofs/C05Check.lean`), for every value carrier; `checkCOO_sound_eval` (in `Props/C05Eval.lean`, the only
+   part that needs Mathlib) transports an acceptance on symbolic polynomial values to every real-valued interpretation
+   of the arguments.
+2. `merge_preserves_sum`, `unique_spec`, `assparse_wf`, `assparse_accepted`: the merge that `Array.assparse`
+   performs on the chunks of `_assparse` (Horner flat index, stable argsort, unique mask, inverse scatter-add,
+   divmod unravel) produces, for all shapes and all in-range chunks, data that the checker accepts and that denote
+   the sum of the chunks.
+3. `compress_indices_spec`, `csr_of_coo`: `numeric.compress_indices` raises exactly outside its precondition and
+   otherwise returns the searchsorted row pointers; the CSR triple `evaluable.as_csr` builds from accepted COO data
+   is accepted by the CSR checker.
+4. `ravel_chunk`, `unravel_chunk`, `diagonalize_chunk`: the re-indexing that `Ravel._assparse`, `Unravel._assparse` and
+   `Diagonalize._assparse` apply to every chunk of their operand turns the accumulated meaning of the operand's chunk
+   into the tensor operation applied to it (these are cases of the structural induction `chunks_denote`).
+5. `ravel_unravel_index`, `flat_unflat`, `hornerFlat_eq_flatIdx`, `unravelLoop_eq_unflatIdx`,
+   `unflat_strictMono`: the index arithmetic (divmod round trips, row-major order = lexicographic order).
+-/
 namespace NutilsVerif.C05
-theorem placeholder : True := trivial
+open NutilsVerif
+
+/-! ## 1. the certified checkers -/
+
+/-- Clause "index tuples are unique": strictly lexicographically increasing tuples are pairwise distinct. -/
+theorem strictLex_nodup (indices : List (List Nat)) (h : strictLexSorted indices = true) : indices.Nodup :=
+  strictLex_nodup' h
+
+/-- **Soundness of the COO checker** (all clauses of the property for COO data).  If `checkCOO` accepts
+`(values, indices, shape)` against `dense`, then: one tuple per value, the dense array has the announced shape,
+every index tuple lies inside the shape, tuples are pairwise strictly lexicographically increasing and distinct,
+and every entry of the box equals the additive meaning of the data at that position (the sum of all listed
+values there; `numeric.accumulate`).  `add`/`zero` arbitrary with `zero + a = a`. -/
+theorem checkCOO_sound {α : Type} [Inhabited α] [BEq α] [LawfulBEq α] (add : α → α → α) (zero : α)
+    (hz : ∀ a, add zero a = a) (shape : List Nat) (indices : List (List Nat)) (values : List α) (dense : Tensor α)
+    (h : checkCOO zero shape indices values dense = true) :
+    indices.length = values.length ∧ dense.shape = shape ∧ (∀ t ∈ indices, inBox shape t = true) ∧
+    indices.Pairwise (fun a b => lexLt a b = true) ∧ indices.Nodup ∧
+    ∀ idx, inBox shape idx = true → dense.get idx = scatterSum add zero indices values idx :=
+  let d := checkCOO_sound' add zero hz shape indices values dense h
+  ⟨d.length, d.shape_eq, d.inRange, d.sorted, d.nodup, d.denotes⟩
+
+/-- **Completeness of the COO checker**: it accepts all data that satisfy the property, so a reported failed clause
+is a genuine violation of that clause on the evaluated data. -/
+theorem checkCOO_complete {α : Type} [Inhabited α] [BEq α] [LawfulBEq α] (add : α → α → α) (zero : α)
+    (hz : ∀ a, add zero a = a) (shape : List Nat) (indices : List (List Nat)) (values : List α) (dense : Tensor α)
+    (h : CooDenotes add zero shape indices values dense) : checkCOO zero shape indices values dense = true :=
+  checkCOO_complete' add zero hz shape indices values dense h
+
+/-- the driver's verdict `ok` is exactly acceptance by the checker (COO and CSR) -/
+theorem verdict_ok_iff (clauses : List (String × Bool)) : firstFailed clauses = none ↔ clauses.all (·.2) = true :=
+  firstFailed_none_iff clauses
+
+/-- **Soundness of the CSR checker**: `rowptr` has `nrows+1` entries, starts at 0, is monotone, ends at `nnz`; one
+column index `< ncols` per value; column indices strictly increase within each row; every dense entry is the sum
+of the values listed in its row at its column. -/
+theorem checkCSR_sound {α : Type} [Inhabited α] [BEq α] [LawfulBEq α] (add : α → α → α) (zero : α)
+    (hz : ∀ a, add zero a = a) (nrows ncols : Nat) (rowptr colidx : List Nat) (values : List α) (dense : Tensor α)
+    (h : checkCSR zero nrows ncols rowptr colidx values dense = true) :
+    rowptr.length = nrows + 1 ∧ rowptr.head? = some 0 ∧ rowptr.Pairwise (· ≤ ·) ∧ rowptr.getLast? = some values.length ∧
+    colidx.length = values.length ∧ (∀ c ∈ colidx, c < ncols) ∧
+    (∀ i, i < nrows → (rowSlice colidx rowptr i).Pairwise (· < ·)) ∧ dense.shape = [nrows, ncols] ∧
+    ∀ i j, i < nrows → j < ncols →
+      dense.get [i, j] = scatterSum add zero (rowSlice colidx rowptr i) (rowSlice values rowptr i) j :=
+  let d := checkCSR_sound' add zero hz nrows ncols rowptr colidx values dense h
+  ⟨d.rowptr_length, d.rowptr_first, d.rowptr_mono, d.rowptr_last, d.colidx_length, d.colidx_range, d.row_sorted, d.shape_eq, d.denotes⟩
+
+theorem checkCSR_complete {α : Type} [Inhabited α] [BEq α] [LawfulBEq α] (add : α → α → α) (zero : α)
+    (hz : ∀ a, add zero a = a) (nrows ncols : Nat) (rowptr colidx : List Nat) (values : List α) (dense : Tensor α)
+    (h : CsrDenotes add zero nrows ncols rowptr colidx values dense) :
+    checkCSR zero nrows ncols rowptr colidx values dense = true :=
+  checkCSR_complete' add zero hz nrows ncols rowptr colidx values dense h
+
+/-! ### the driver's carrier: polynomials in the real-valued arguments -/
+
+instance : LawfulBEq Poly where
+  eq_of_beq {a b} h := by
+    have h' : a.terms = b.terms := by
+      have : (a.terms == b.terms) = true := h
+      exact eq_of_beq this
+    cases a; cases b; simp only at h'; rw [h']
+  rfl {a} := by show (a.terms == a.terms) = true; exact BEq.rfl
+
+theorem poly_zero_eq : (0 : Poly) = Poly.zero := by
+  show Poly.ofRat _ = _
+  simp [Poly.ofRat, Poly.zero]
+
+/-- `0 + p = p` holds on the nose for the normal-form addition (no well-formedness needed) -/
+theorem poly_zero_add (p : Poly) : (0 : Poly) + p = p := by
+  rw [poly_zero_eq]
+  show Poly.add Poly.zero p = p
+  simp [Poly.add, Poly.zero, Poly.addTerms]
+
+
+/-! ## 2. the merge step of `Array.assparse` -/
+
+/-- `unique(array, return_inverse=True)` (ArgSort · UniqueMask · Find · UniqueInverse): the result is strictly
+increasing, has exactly the entries of `array`, and `unique[inverse[k]] = array[k]` for every position. -/
+theorem unique_spec (f : List Nat) :
+    (uniqueInv f).1.Pairwise (· < ·) ∧ (∀ y, y ∈ (uniqueInv f).1 ↔ y ∈ f) ∧ (uniqueInv f).2.length = f.length ∧
+    ∀ k (hk : k < f.length), (uniqueInv f).1[(uniqueInv f).2.getD k 0]? = some f[k] :=
+  unique_spec' f
+
+/-- **Sorting + unique + inverse scatter-add preserves the additive meaning**: for all flat index vectors and
+values, the merged positions strictly increase, are exactly the positions that occur, and at every position the
+merged data denote the same sum as the concatenated chunks. -/
+theorem merge_preserves_sum {α : Type} (add : α → α → α) (zero : α) (hz : ∀ a, add zero a = a)
+    (flat : List Nat) (values : List α) :
+    (mergeFlat add zero flat values).1.Pairwise (· < ·) ∧
+    (∀ y, y ∈ (mergeFlat add zero flat values).1 ↔ y ∈ flat) ∧
+    (mergeFlat add zero flat values).1.length = (mergeFlat add zero flat values).2.length ∧
+    ∀ p, scatterSum add zero (mergeFlat add zero flat values).1 (mergeFlat add zero flat values).2 p
+        = scatterSum add zero flat values p :=
+  merge_preserves_sum' add zero hz flat values
+
+/-- Concatenating chunks adds their meanings (commutative monoid): justifies `Array.assparse` concatenating the
+chunks of `_assparse`, `Add._assparse` chaining the chunks of its terms, and the per-chunk `Inflate`s being summed. -/
+theorem chunks_concat_sum {α ι : Type} [BEq ι] {add : α → α → α} {zero : α} (h : IsCommMonoid add zero)
+    (i₁ i₂ : List ι) (v₁ v₂ : List α) (idx : ι) (hlen : i₁.length = v₁.length) :
+    scatterSum add zero (i₁ ++ i₂) (v₁ ++ v₂) idx = add (scatterSum add zero i₁ v₁ idx) (scatterSum add zero i₂ v₂ idx) :=
+  scatterSum_append h i₁ i₂ v₁ v₂ idx hlen
+
+/-- **`Array.assparse` is well formed and meaning preserving** (ndim > 0): for every shape and every list of chunk
+entries inside the shape, the merged `(indices, values)` are in range, strictly lexicographically increasing and
+denote at every position of the box the same sum as the chunks. -/
+theorem assparse_wf {α : Type} (add : α → α → α) (zero : α) (hz : ∀ a, add zero a = a) (shape : List Nat) (hs : shape ≠ [])
+    (tuples : List (List Nat)) (values : List α) (hbox : ∀ t ∈ tuples, inBox shape t = true) :
+    (∀ t ∈ (assparse add zero shape tuples values).1, inBox shape t = true) ∧
+    (assparse add zero shape tuples values).1.Pairwise (fun a b => lexLt a b = true) ∧
+    (assparse add zero shape tuples values).1.length = (assparse add zero shape tuples values).2.length ∧
+    ∀ idx, inBox shape idx = true →
+      scatterSum add zero (assparse add zero shape tuples values).1 (assparse add zero shape tuples values).2 idx
+        = scatterSum add zero tuples values idx :=
+  assparse_wf' add zero hz shape hs tuples values hbox
+
+/-- Composition of 1 and 2: the output of the `assparse` model is accepted by the certified checker against the
+dense array that accumulates the chunks (`numeric.accumulate`). -/
+theorem assparse_accepted {α : Type} [Inhabited α] [BEq α] [LawfulBEq α] (add : α → α → α) (zero : α)
+    (hz : ∀ a, add zero a = a) (shape : List Nat) (hs : shape ≠ []) (tuples : List (List Nat)) (values : List α)
+    (hbox : ∀ t ∈ tuples, inBox shape t = true) :
+    checkCOO zero shape (assparse add zero shape tuples values).1 (assparse add zero shape tuples values).2
+      (accumulate add zero shape tuples values) = true := by
+  obtain ⟨h1, h2, h3, h4⟩ := assparse_wf' add zero hz shape hs tuples values hbox
+  apply checkCOO_complete' add zero hz
+  refine ⟨h3, rfl, h1, h2, h2.imp fun hab => lexLt_ne hab, fun idx hidx => ?_⟩
+  rw [accumulate, Tensor.get_ofFn shape _ idx hidx, h4 idx hidx]
+
+/-! ## 3. `numeric.compress_indices` and `evaluable.as_csr` -/
+
+/-- **`compress_indices`**: for all index vectors and lengths, the call succeeds iff the vector is monotone with
+entries in `[0, n)` (otherwise it raises), and then returns `indices.searchsorted(arange(n+1))`. -/
+theorem compress_indices_spec (idx : List Int) (n : Nat) :
+    match compressIndices idx n with
+    | .ok c => (monotoneInt idx = true ∧ inRangeInt idx n = true) ∧ c = searchsortedAll idx n
+    | .error _ => ¬ (monotoneInt idx = true ∧ inRangeInt idx n = true) :=
+  compress_indices_spec' idx n
+
+/-- the searchsorted row pointers: `n+1` entries, the first is 0 and the last is `len(indices)` for in-range
+vectors, monotone, and entry `i` counts the indices below `i` (so `indices[c[i]:c[i+1]]` are the entries equal to
+`i`, see `rows_slice_eq`) -/
+theorem searchsorted_rowptr (idx : List Int) (n : Nat) (hr : inRangeInt idx n = true) :
+    (searchsortedAll idx n).length = n + 1 ∧ (searchsortedAll idx n).head? = some 0 ∧
+    (searchsortedAll idx n).getLast? = some (idx.length : Int) ∧ (searchsortedAll idx n).Pairwise (· ≤ ·) := by
+  simp only [inRangeInt, List.all_eq_true, Bool.and_eq_true, decide_eq_true_eq] at hr
+  refine ⟨by simp [searchsortedAll], ?_, ?_, ?_⟩
+  · have : idx.filter (· < (0 : Int)) = [] := by
+      rw [List.filter_eq_nil_iff]; intro x hx; have := hr x hx; simp; omega
+    simp [searchsortedAll, List.head?_range, this]
+  · have : idx.filter (· < (n : Int)) = idx := by
+      rw [List.filter_eq_self]; intro x hx; have := hr x hx; simp; omega
+    simp [searchsortedAll, List.getLast?_range, this]
+  · rw [searchsortedAll, List.pairwise_map]
+    refine List.pairwise_lt_range.imp fun {a b} hab => ?_
+    rw [← List.countP_eq_length_filter, ← List.countP_eq_length_filter]
+    exact Int.ofNat_le.2 (List.countP_mono_left fun x _ hx => by simp at hx ⊢; omega)
+
+/-- in a vector sorted by row, the slice `[rowptr[i], rowptr[i+1])` holds exactly the entries of row `i` -/
+theorem rows_slice_eq {β : Type} (rows : List Nat) (l : List β) (nrows i : Nat) (hi : i < nrows)
+    (hlen : rows.length = l.length) (hsorted : rows.Pairwise (· ≤ ·)) :
+    rowSlice l (rowptrOf rows nrows) i = ((rows.zip l).filter (·.1 == i)).map (·.2) :=
+  rowSlice_rowptrOf rows l nrows i hi hlen hsorted
+
+/-- **COO → CSR** (`evaluable.as_csr`): for every 2-d COO triple accepted by the COO checker,
+`CompressIndices(rowidx, nrows)` does not raise and `(values, rowptr, colidx, ncols)` is accepted by the CSR checker. -/
+theorem csr_of_coo {α : Type} [Inhabited α] [BEq α] [LawfulBEq α] (add : α → α → α) (zero : α)
+    (hz : ∀ a, add zero a = a) (nrows ncols : Nat) (indices : List (List Nat)) (values : List α) (dense : Tensor α)
+    (h : checkCOO zero [nrows, ncols] indices values dense = true) :
+    ∃ rowptr colidx, asCsr indices nrows = .ok (rowptr, colidx) ∧
+      checkCSR zero nrows ncols rowptr colidx values dense = true :=
+  csr_of_coo' add zero hz nrows ncols indices values dense h
+
+/-! ## 4. chunk transformers of `_assparse` overrides -/
+
+/-- **`Ravel._assparse`** `(…, i, j) ↦ (…, i*b + j)`: for every leading shape `s`, every `a`, `b` and every chunk inside
+the box of `s ++ [a, b]`, the re-indexed chunk accumulates to `Ravel` of what the chunk accumulates to. -/
+theorem ravel_chunk {α : Type} [Inhabited α] (add : α → α → α) (zero : α) (s : List Nat) (a b : Nat)
+    (tuples : List (List Nat)) (values : List α) (hbox : ∀ t ∈ tuples, inBox (s ++ [a, b]) t = true) :
+    accumulate add zero (s ++ [a * b]) (tuples.map (ravelTuple b)) values ≃ₜ
+      Tensor.ravel (accumulate add zero (s ++ [a, b]) tuples values) :=
+  ravel_chunk_denotes add zero s a b tuples values hbox
+
+/-- **`Unravel._assparse`** `(…, k) ↦ (…, k / b, k % b)`. -/
+theorem unravel_chunk {α : Type} [Inhabited α] (add : α → α → α) (zero : α) (s : List Nat) (a b : Nat)
+    (tuples : List (List Nat)) (values : List α) (hbox : ∀ t ∈ tuples, inBox (s ++ [a * b]) t = true) :
+    accumulate add zero (s ++ [a, b]) (tuples.map (unravelTuple b)) values ≃ₜ
+      Tensor.unravel (accumulate add zero (s ++ [a * b]) tuples values) a b :=
+  unravel_chunk_denotes add zero s a b tuples values hbox
+
+/-- **`Diagonalize._assparse`** `(…, i) ↦ (…, i, i)`: off-diagonal entries are not listed and denote `zero`. -/
+theorem diagonalize_chunk {α : Type} [Inhabited α] (add : α → α → α) (zero : α) (s : List Nat) (n : Nat)
+    (tuples : List (List Nat)) (values : List α) (hbox : ∀ t ∈ tuples, inBox (s ++ [n]) t = true) :
+    accumulate add zero (s ++ [n, n]) (tuples.map diagTuple) values ≃ₜ
+      Tensor.diagonalize zero (accumulate add zero (s ++ [n]) tuples values) :=
+  diagonalize_chunk_denotes add zero s n tuples values hbox
+
+example : ∀ t ∈ [[0, 1, 2], [1, 0, 0]], inBox ([2] ++ [2, 3]) t = true := by decide
+
+/-! ## 5. index arithmetic -/
+
+/-- **divmod round trip** (`Ravel._assparse`: `i*b + j`; `Unravel._assparse` and the unravel loop: `divmod`):
+for `k < a*b`: `(k / b) * b + k % b = k`, `k / b < a`, `k % b < b`; and for `j < b`: `(i*b + j) / b = i`,
+`(i*b + j) % b = j`. -/
+theorem ravel_unravel_index (a b : Nat) :
+    (∀ k, k < a * b → (k / b) * b + k % b = k ∧ k / b < a ∧ k % b < b) ∧
+    (∀ i j, j < b → (i * b + j) / b = i ∧ (i * b + j) % b = j) :=
+  ⟨fun _ h => ravel_unravel_index' h, fun _ _ h => unravel_ravel_index' h⟩
+
+/-- lifted to multi-indices, direction flat → tuple → flat (the converse `unflat_flat` is in `Proofs/Tensor.lean`) -/
+theorem flat_unflat_index (shape : List Nat) (k : Nat) (hk : k < shapeSize shape) :
+    inBox shape (unflatIdx shape k) = true ∧ flatIdx shape (unflatIdx shape k) = k :=
+  ⟨inBox_unflat shape k hk, flat_unflat shape k hk⟩
+
+theorem unflat_flat_index (shape idx : List Nat) (h : inBox shape idx = true) :
+    flatIdx shape idx < shapeSize shape ∧ unflatIdx shape (flatIdx shape idx) = idx :=
+  ⟨flatIdx_lt shape idx h, unflat_flat shape idx h⟩
+
+/-- the Horner flat index of `Array.assparse` is the row-major position -/
+theorem hornerFlat_eq (shape idx : List Nat) (h : inBox shape idx = true) (hs : shape ≠ []) :
+    hornerFlat shape idx = flatIdx shape idx :=
+  hornerFlat_eq_flatIdx (inBox_length h) hs
+
+/-- the divmod loop of `Array.assparse` inverts it -/
+theorem unravelLoop_horner (shape idx : List Nat) (h : inBox shape idx = true) (hs : shape ≠ []) :
+    unravelLoop shape (hornerFlat shape idx) = idx := by
+  rw [hornerFlat_eq shape idx h hs, unravelLoop_eq_unflat hs (flatIdx_lt shape idx h), unflat_flat shape idx h]
+
+/-- row-major order is lexicographic order: strictly increasing flat positions unravel to strictly
+lexicographically increasing tuples (this is why sorting the flat index sorts the tuples) -/
+theorem unflat_strictMono (shape : List Nat) (hs : shape ≠ []) (a b : Nat) (hab : a < b) (hb : b < shapeSize shape) :
+    lexLt (unflatIdx shape a) (unflatIdx shape b) = true :=
+  lexLt_unflat shape hs hab hb
+
+/-! ## non-vacuity -/
+
+-- the checker accepts the 2×3 array [[0,5,0],[0,0,7]] with entries (0,1) ↦ 5, (1,2) ↦ 7 and rejects a swapped order
+example : checkCOO (0 : Int) [2, 3] [[0, 1], [1, 2]] [5, 7] ⟨[2, 3], #[0, 5, 0, 0, 0, 7]⟩ = true := by decide
+example : checkCOO (0 : Int) [2, 3] [[1, 2], [0, 1]] [7, 5] ⟨[2, 3], #[0, 5, 0, 0, 0, 7]⟩ = false := by decide
+example : checkCOO (0 : Int) [2, 3] [[0, 1], [1, 2]] [5, 7] ⟨[2, 3], #[0, 5, 0, 0, 1, 7]⟩ = false := by decide
+example : checkCSR (0 : Int) 2 3 [0, 1, 2] [1, 2] [5, 7] ⟨[2, 3], #[0, 5, 0, 0, 0, 7]⟩ = true := by decide
+example : checkCSR (0 : Int) 2 3 [0, 2, 2] [1, 1] [5, 7] ⟨[2, 3], #[0, 12, 0, 0, 0, 0]⟩ = false := by decide
+-- 0-d: one value, one empty tuple
+example : checkCOO (0 : Int) [] [[]] [4] ⟨[], #[4]⟩ = true := by decide
+-- the hypothesis of `assparse_wf` / `assparse_accepted` is satisfiable (chunks with a duplicate position)
+example : ∀ t ∈ [[1, 2], [0, 1], [1, 2]], inBox [2, 3] t = true := by decide
+example : (compressIndices [0, 0, 2] 4).toOption = some [0, 2, 2, 3, 3] := by decide
+example : (match compressIndices [1, 0] 2 with | .error .notMonotone => true | _ => false) = true := by decide
+example : (∀ a : Int, 0 + a = a) := Int.zero_add
+
 end NutilsVerif.C05
